@@ -104,6 +104,26 @@ pub fn key_windows(der: &[u8], secret_range: std::ops::Range<usize>) -> Vec<(Str
         }
         out.push((format!("decimal byte list (separator {sep:?})"), set, 0));
     }
+    // the key as it was handed over is PEM *text*: byte lists / hex of that text (e.g. the Debug form of a
+    // `FromUtf8Error`, a hex dump of a read buffer) give the key away just as well
+    let body = base64(der, false, true);
+    let start = (secret_range.start as f64 * 4.0 / 3.0).ceil() as usize;
+    let end = ((secret_range.end as f64 * 4.0 / 3.0).floor() as usize).min(body.len());
+    let text = &body.as_bytes()[start..end];
+    for sep in [", ", ","] {
+        let mut set = HashSet::new();
+        for w in text.windows(12) {
+            _ = set.insert(dec_list(w, sep).into_bytes());
+        }
+        out.push((format!("decimal byte list of the PEM text (separator {sep:?})"), set, 0));
+    }
+    for (name, upper, sep, width) in [("hex of the PEM text", false, "", 40usize), ("HEX of the PEM text", true, "", 40), ("hex of the PEM text with ' '", false, " ", 59)] {
+        let mut set = HashSet::new();
+        for w in text.windows(20) {
+            _ = set.insert(hex(w, upper, sep).into_bytes());
+        }
+        out.push((name.to_string(), set, width));
+    }
     out
 }
 
@@ -219,9 +239,9 @@ pub fn run(report: &mut Report) {
     let servers = Servers::start("C20");
     let levels: Vec<&'static str> = if thorough { vec!["ERROR", "WARN", "INFO", "DEBUG", "TRACE"] } else { vec!["INFO", "DEBUG", "TRACE"] };
     let passwords: Vec<String> = if thorough {
-        vec![SSH_PASSWORD.into(), "s3cr3t".into(), "it's \"quoted\"".into(), "back\\slash and\ttab".into(), "p\u{e4}ssw\u{f6}rd-\u{1f511}".into(), "Zm9vYmFyYmF6cXV4MTIzNDU2Nzg5MA==".into(), " padded s3cret ".into(), "from-a-file-w1th-newline\n".into()]
+        vec![SSH_PASSWORD.into(), "s3cr3t".into(), "it's \"quoted\"".into(), "back\\slash and\ttab".into(), "p\u{e4}ssw\u{f6}rd-\u{1f511}".into(), "Zm9vYmFyYmF6cXV4MTIzNDU2Nzg5MA==".into(), " padded s3cret ".into(), "from-a-file-w1th-newline\n".into(), "@Zx9/hunter2-\u{e9}t\u{e9}".into(), "-p4ss-starting-with-a-dash".into(), "$HOME/~s3cr3t%41".into(), "file:///no/such/s3cr3t".into()]
     } else {
-        vec![SSH_PASSWORD.into(), "it's \"quoted\"".into(), "p\u{e4}ssw\u{f6}rd-\u{1f511}".into(), " from-a-file-w1th-newline\n".into()]
+        vec![SSH_PASSWORD.into(), "it's \"quoted\"".into(), "p\u{e4}ssw\u{f6}rd-\u{1f511}".into(), " from-a-file-w1th-newline\n".into(), "@Zx9/hunter2-\u{e9}t\u{e9}".into()]
     };
     let mut cfgs: Vec<Cfg> = Vec::new();
     for level in &levels {
@@ -372,6 +392,12 @@ pub fn run(report: &mut Report) {
     for (name, text) in &damaged {
         _ = std::fs::write(bundle_dir.join(name), text);
     }
+    // `openssl pkcs12 -nodes` output: bag attributes before the PEM section, here with a Latin-1 (not UTF-8) name
+    let mut pkcs12_style: Vec<u8> = b"Bag Attributes\n    friendlyName: cl\xe9 du routeur\n    localKeyID: 01 02 03\nKey Attributes: <No Attributes>\n".to_vec();
+    pkcs12_style.extend_from_slice(key_text.as_bytes());
+    _ = std::fs::write(bundle_dir.join("latin1-bag-attributes.key"), &pkcs12_style);
+    let mut damaged = damaged;
+    damaged.push(("latin1-bag-attributes.key", String::new()));
     let bundle = |n: &str| bundle_dir.join(n).display().to_string();
     let pk = |n: &str| peers::pki(n).display().to_string();
     let mut agent_cases: Vec<(String, String, &str, bool)> = vec![
